@@ -11,6 +11,7 @@
 // that outlive it, bounded socket buffers with a stalled reader, exchanges before the CONNECT on the same
 // connection, other spellings of the request, a second tunnel at the same time, both ends finishing together, and
 // the oracle clauses eof_spurious / eof_unclean / release after a 502. Their signatures lead with the family name.
+// Round 7 (sizeconv.go): conversations whose relayed messages have a size at a buffer constant of the code.
 //
 // Development aids: C04_ONLY=<substring of the scenario description>, C04_BOUND=<n>, C04_LIST=1, C04_STATS=1.
 package main
@@ -85,6 +86,10 @@ type scenario struct {
 	ResModErr bool `json:",omitempty"`
 	// Lite: explored with one deviation less than the tier's bound (secondary combinations; does not change behaviour)
 	Lite bool `json:",omitempty"`
+	// SizeConv (round 7): the scenario is a conversation in which a relayed message of exactly this many bytes (a size
+	// at, next to, or a multiple of a buffer size of the code: bufio 4096, io.Copy 32 KiB) is followed by its sender
+	// waiting for the peer's reply; names the family in the signature, does not change behaviour
+	SizeConv int `json:",omitempty"`
 }
 
 // refusals: final answers of a downstream proxy that declines the tunnel; KeepAlive: it then waits for the next
@@ -149,6 +154,9 @@ func (s scenario) extra() string {
 	if s.ResModErr {
 		add("resmoderr", true)
 	}
+	if s.SizeConv != 0 {
+		add("sizeconv", s.SizeConv)
+	}
 	return out
 }
 
@@ -178,6 +186,9 @@ func (s scenario) classTag() string {
 	}
 	if s.ResModErr {
 		t += ":resmoderr"
+	}
+	if s.SizeConv != 0 {
+		t += fmt.Sprintf(":sizeconv=%d", s.SizeConv)
 	}
 	return t
 }
@@ -1191,7 +1202,7 @@ func scenarios(tier string) []scenario {
 		}
 	}
 	out = append(out, scenario{DialErr: true}, scenario{DialErr: true, Route: "downstream"})
-	return append(out, auditScenarios(tier)...)
+	return append(append(out, auditScenarios(tier)...), sizeConvScenarios(tier)...)
 }
 
 // auditScenarios are the families added by the coverage audit (checks/c04/AUDIT.md). Scenarios marked Lite are
@@ -1425,6 +1436,11 @@ func main() {
 			if len(sc.CChunks) > 0 && len(sc.TChunks) > 0 && sc.CChunks[0] > 4096 && sc.TChunks[0] > 4096 {
 				bidi = true
 			}
+			if sc.SizeConv != 0 {
+				// round 7: one deviation less like the other large sizes, except the size that fills a bufio buffer
+				// exactly, as the first message of its direction: full bound
+				bidi = sc.SizeConv == 4096 && len(sc.CChunks) == 2
+			}
 			if big && !(bidi && tier == "quick") {
 				b-- // long executions; the simultaneous-large-chunk scenarios keep the full bound in quick
 			}
@@ -1541,8 +1557,8 @@ func main() {
 	rep.Coverage["exhaustive"] = rep.Incomplete == ""
 	rep.Coverage["evaluations"] = rep.Counter("executions")
 	rep.Coverage["distinct_nontrivial"] = rep.Counter("scenarios_with_multiple_outcomes")
-	rep.Coverage["rule"] = "a case is a scenario (early-data placement, chunk lists of both directions, who finishes first and how, route, connection capability classes, history on the connection, request spelling, timing, buffer capacity); all its executions are the schedules with at most the stated number of deviations from the default schedule, and the oracle is evaluated on every one of them; a scenario counts as non-trivial when its observation log depends on the schedule (at least two distinct logs)"
-	rep.Coverage["bounds"] = fmt.Sprintf("%d scenarios (5 early-data placements x client/target chunk lists {[],[3],[1,2]} x who finishes first {client, target, both} x full/half close/reset; large sizes 4097/5003/32769 bytes and sizes that fill the 4096-byte buffers exactly; short-read variants; dial error); downstream-proxy route incl. a downstream proxy that closes, answers garbage or refuses (403/407/502/503); connection capability classes {TCP-like, CloseWrite only, net.Conn only} on either side and a traffic-shaping listener; silent periods of 11 s and 200 s before the last chunks and tunnels that outlive SetTimeout(30 s) / the default timeout with 11 s / 100 s gaps; socket buffers capped at 2048 bytes with a stalled reader; CONNECT after a 502 / a GET / pipelined behind a GET; HTTP/1.0, Connection: close, Proxy-Connection, IPv6 spellings; a second tunnel at the same time; every schedule with <= %d deviations (one less for large sizes and for the scenarios marked lite)", len(scen), bound)
+	rep.Coverage["rule"] = "a case is a scenario (early-data placement, chunk lists of both directions, who finishes first and how, route, connection capability classes, history on the connection, request spelling, timing, buffer capacity, message sizes at the code's buffer constants inside a conversation); all its executions are the schedules with at most the stated number of deviations from the default schedule, and the oracle is evaluated on every one of them; a scenario counts as non-trivial when its observation log depends on the schedule (at least two distinct logs)"
+	rep.Coverage["bounds"] = fmt.Sprintf("%d scenarios (5 early-data placements x client/target chunk lists {[],[3],[1,2]} x who finishes first {client, target, both} x full/half close/reset; large sizes 4097/5003/32769 bytes and sizes that fill the 4096-byte buffers exactly; short-read variants; dial error); downstream-proxy route incl. a downstream proxy that closes, answers garbage or refuses (403/407/502/503); connection capability classes {TCP-like, CloseWrite only, net.Conn only} on either side and a traffic-shaping listener; silent periods of 11 s and 200 s before the last chunks and tunnels that outlive SetTimeout(30 s) / the default timeout with 11 s / 100 s gaps; socket buffers capped at 2048 bytes with a stalled reader; CONNECT after a 502 / a GET / pipelined behind a GET; HTTP/1.0, Connection: close, Proxy-Connection, IPv6 spellings; a second tunnel at the same time; conversations in which a relayed message of 4095/4096/4097/8192 bytes (thorough: also 32767/32768/32769) is followed by its sender waiting for the reply, sent by the client, the target or both, as first or second message or twice in a row, on all three routes; every schedule with <= %d deviations (one less for large sizes and for the scenarios marked lite)", len(scen), bound)
 	rep.Coverage["explanation"] = "each execution runs the real proxy.go CONNECT path over simnet under the gosim scheduler; prompt = first quiescent point with zero virtual time elapsed (no timeout can have fired), or one virtual second after the last scripted pause"
 	rep.Assumptions = []string{"simnet models TCP (coalescing reads, FIN on close / CloseWrite, writes to a closed peer fail from the second write on)", "real-time pauses are represented by interleavings and by scripted periods of virtual time", "a simnet write with an expired write deadline still succeeds while buffer space is left (the kernel would refuse it): a tunnel cut by the deadline shows through the reading side only"}
 	rep.Finish()
